@@ -28,9 +28,8 @@ theorem step_keysNodup (s : Sys) (ev : Event) (h : KeysNodup s.env.owner) :
   | spawn c caps arg => simp only [step, handleSpawn_owner]; exact h.insertAll _ _
   | terminate p => exact h
   | results a rs =>
-    simp only [step]
-    exact handleProcessResults_induct (P := fun e => KeysNodup e.owner)
-      (fun s p hs => by simpa using hs.eraseAll _) _ _ h
+    simp only [step, handleProcessResults_owner]
+    exact h.eraseAll _
 
 /-- **owner_unique.** In the state reached by any history whatsoever, the ownership map is a
 function with no id registered twice: `ownGet` yields at most one owner (by type) and the
@@ -176,27 +175,52 @@ theorem close_calls_only_by_results (s : Sys) (ev : Event)
     · rfl
     · exact execute_closeCalls _ _ _ _
 
+/-- `p` is cleaned up by this `ProcessResults`: the message carries `Some(result)` for `p`, and `p`
+is not a persistent process reporting a value (= merely asleep until resumed; repair 200f50e). -/
+def Cleaned (s : Sys) (rs : List (Pid × Rep)) (p : Pid) : Prop :=
+  ∃ rep, (p, rep) ∈ rs ∧ rep ≠ .pending ∧ ¬ (p ∈ s.env.persistent ∧ rep = .ok)
+
+theorem cleans_iff (pers : List Pid) (p : Pid) (rep : Rep) :
+    cleans pers (p, rep) = true ↔ rep ≠ .pending ∧ ¬ (p ∈ pers ∧ rep = .ok) := by
+  cases rep <;> simp [cleans]
+
+theorem cleaned_iff (s : Sys) (rs : List (Pid × Rep)) (p : Pid) :
+    (p, true) ∈ classify s.env.persistent rs ↔ Cleaned s rs p := by
+  rw [mem_classify]
+  constructor
+  · rintro ⟨rep, hm, hc⟩; exact ⟨rep, hm, (cleans_iff _ _ _).1 hc⟩
+  · rintro ⟨rep, hm, hc⟩; exact ⟨rep, hm, (cleans_iff _ _ _).2 hc⟩
+
 /-- **cleanup_closes_once (one batch).** When a `ProcessResults` is handled in a state whose
 ownership map has unique keys (every reachable state: `owner_unique`), the ids passed to
-`close_resource` are, without repetition, exactly the ids registered to a process reported as
-completed in this very message (`result.is_some()`), and each of them is unregistered afterwards —
-so a later batch cannot close it again unless something registers it anew. -/
-theorem cleanup_closes_once_step (s : Sys) (hn : KeysNodup s.env.owner) (a : Pid) (rs : List (Pid × Bool)) :
+`close_resource` are, without repetition, exactly the ids registered to a process this very message
+reports as complete (`Some(result)`, and not a sleeping persistent process), and each of them is
+unregistered afterwards — so a later batch cannot close it again unless something registers it
+anew. -/
+theorem cleanup_closes_once_step (s : Sys) (hn : KeysNodup s.env.owner) (a : Pid) (rs : List (Pid × Rep)) :
     ∃ closed : List Rid,
       (step s (.results a rs)).env.backend.closeCalls = s.env.backend.closeCalls ++ closed ∧
       closed.Nodup ∧
-      (∀ r, r ∈ closed ↔ ∃ p, (p, true) ∈ rs ∧ ownGet s.env.owner r = some p) ∧
+      (∀ r, r ∈ closed ↔ ∃ p, Cleaned s rs p ∧ ownGet s.env.owner r = some p) ∧
       (∀ r ∈ closed, ownGet (step s (.results a rs)).env.owner r = none) := by
-  refine ⟨cleanupList s.env.owner rs, ?_, cleanupList_nodup hn rs, fun r => mem_cleanupList hn, ?_⟩
+  refine ⟨cleanupList s.env.owner (classify s.env.persistent rs), ?_, cleanupList_nodup hn _, ?_, ?_⟩
   · simp only [step, handleProcessResults_backend, closeAll_closeCalls]
+  · intro r
+    rw [mem_cleanupList hn]
+    constructor
+    · rintro ⟨p, hp, hg⟩; exact ⟨p, (cleaned_iff s rs p).1 hp, hg⟩
+    · rintro ⟨p, hp, hg⟩; exact ⟨p, (cleaned_iff s rs p).2 hp, hg⟩
   · intro r hr
     simp only [step, handleProcessResults_owner, ownGet_eraseAll, if_pos hr]
 
 /-- **no_close_while_owner_alive.** In a state reached by any history, when the workers respect
-`livenessOk` for the next event (they report `Some(result)` only for a process whose body has
-finished), every id passed to `close_resource` by that event is registered to a process that has
-terminated. Together with `close_calls_only_by_results`: the environment never closes a resource
-whose owner is alive. -/
+`livenessOk` for the next event — they report `Some(result)` only for a process that is dead, or
+`Some(Ok(_))` for a persistent process that is merely asleep between two resumptions (which is what
+`query_and_await` does: it treats `Sleeping` like `Completed`) — every id passed to
+`close_resource` by that event is registered to a process that is dead. Together with
+`close_calls_only_by_results`: the environment never closes a resource whose owner is alive,
+*including the sleeping REPL process when somebody awaits it* (before the repair 200f50e that case
+failed: `sleeping_owner_closed_by_old_rule`). -/
 theorem no_close_while_owner_alive (n : Nat) (h : List Event) (ev : Event)
     (hev : livenessOk (run (init n) h) ev = true) (r : Rid)
     (hr : r ∈ (step (run (init n) h) ev).env.backend.closeCalls)
@@ -211,14 +235,29 @@ theorem no_close_while_owner_alive (n : Nat) (h : List Event) (ev : Event)
     rw [hcl, List.mem_append] at hr
     rcases hr with hr | hr
     · exact absurd hr hnew
-    · obtain ⟨p, hp, hg⟩ := (hmem r).1 hr
+    · obtain ⟨p, ⟨rep, hm, hne, hns⟩, hg⟩ := (hmem r).1 hr
       refine ⟨p, hg, ?_⟩
       simp only [livenessOk, List.all_eq_true] at hev
-      have := hev p (mem_reportedOf.2 hp)
-      simpa using this
+      have := hev (p, rep) hm
+      simp only [Bool.or_eq_true, beq_iff_eq, List.contains_eq_mem, decide_eq_true_eq,
+        Bool.and_eq_true] at this
+      rcases this with (h1 | h1) | h1
+      · exact absurd h1 hne
+      · exact h1
+      · exact absurd h1 hns
+
+/-- The repair in isolation: a `ProcessResults` that reports a value for a persistent process
+changes nothing at all — its resources stay registered and open. -/
+theorem sleeping_report_changes_nothing (s : Sys) (a p : Pid) (hp : p ∈ s.env.persistent) :
+    (step s (.awaitReport a p)).env = s.env := by
+  simp [step, Event.awaitReport, handleProcessResults, cleans, hp, handleCleanups]
+
+/-- A FAILED persistent process can never be resumed: it is cleaned up like any other. -/
+theorem failed_persistent_is_cleaned (s : Sys) (a p : Pid) :
+    Cleaned s [(p, .failed)] p := ⟨.failed, by simp, by simp, by simp⟩
 
 example :
-    let s := run (init 2) [.start, .start, .open 0, .open 1, .open 1, .terminate 1]
+    let s := run (init 2) [.start, .spawn 0 [] .other, .open 0, .open 1, .open 1, .terminate 1]
     (step s (.awaitReport 0 1)).env.backend.closeCalls = [3, 2] ∧
     (step s (.awaitReport 0 1)).env.backend.openSet = [1] := by decide
 
@@ -251,15 +290,16 @@ theorem envOnly_idle (s : Sys) (hp : s.env.backend.pending = []) (h' : List Even
     simp only [run, this]
     exact ih (fun e hm => he e (List.mem_cons_of_mem _ hm))
 
-/-- The witness history of F10: process 0 opens a file and terminates; nobody awaits it. -/
-def f10Witness : List Event := [.start, .open 0, .terminate 0]
+/-- The witness history of F10: process 0 spawns process 1, which opens a file and terminates; nobody
+awaits it. -/
+def f10Witness : List Event := [.start, .spawn 0 [] .other, .open 1, .terminate 1]
 
 /-- **F10.** `ClosedOnTerminationStatement` is false: after `[open r by p; p terminates]` the
 resource stays open whatever number of environment steps follow — cleanup runs only inside
 `handle_process_results`, i.e. only if somebody awaits `p`. -/
 theorem closedOnTermination_false : ¬ ClosedOnTerminationStatement := by
   intro hst
-  obtain ⟨h', he, hno⟩ := hst 1 f10Witness (by decide) 0 1 (by decide) (by decide)
+  obtain ⟨h', he, hno⟩ := hst 1 f10Witness (by decide) 1 1 (by decide) (by decide)
   rw [run_append, envOnly_idle _ (by decide) h' he] at hno
   exact hno (by decide)
 
@@ -269,15 +309,16 @@ hold: as soon as a `ProcessResults` reporting `p` as completed is handled (some 
 backend and is no longer registered; registrations of processes not reported in that message are
 untouched. What is missing for the full statement: a cleanup trigger for processes nobody awaits. -/
 theorem closed_on_reported_termination_partial (n : Nat) (h : List Event) (a p : Pid)
-    (rs : List (Pid × Bool)) (hp : (p, true) ∈ rs) (r : Rid)
+    (rs : List (Pid × Rep)) (hp : Cleaned (run (init n) h) rs p) (r : Rid)
     (hr : ownGet (run (init n) h).env.owner r = some p) :
     let s' := step (run (init n) h) (.results a rs)
     r ∈ s'.env.backend.closeCalls ∧ r ∉ s'.env.backend.openSet ∧ ownGet s'.env.owner r = none ∧
-    (∀ r' q, ownGet (run (init n) h).env.owner r' = some q → (q, true) ∉ rs →
+    (∀ r' q, ownGet (run (init n) h).env.owner r' = some q → ¬ Cleaned (run (init n) h) rs q →
       ownGet s'.env.owner r' = some q) := by
   have hn := owner_unique n h
   generalize run (init n) h = s at *
-  have hm : r ∈ cleanupList s.env.owner rs := (mem_cleanupList hn).2 ⟨p, hp, hr⟩
+  have hm : r ∈ cleanupList s.env.owner (classify s.env.persistent rs) :=
+    (mem_cleanupList hn).2 ⟨p, (cleaned_iff s rs p).2 hp, hr⟩
   refine ⟨?_, ?_, ?_, ?_⟩
   · simp only [step, handleProcessResults_backend, closeAll_closeCalls, List.mem_append]
     exact .inr hm
@@ -291,7 +332,7 @@ theorem closed_on_reported_termination_partial (n : Nat) (h : List Event) (a p :
     · intro hc
       obtain ⟨p', hp', hg⟩ := (mem_cleanupList hn).1 hc
       rw [hq] at hg; cases hg
-      exact hnq hp'
+      exact hnq ((cleaned_iff s rs q).1 hp')
 
 /-! ## created_owned_by_creator -/
 
@@ -468,13 +509,14 @@ theorem effective_close_once (n : Nat) (h : List Event) :
 /-- **Who can close.** In every state with unique registrations: if a step removes an open resource
 `r` from the backend's registry, the step is either an explicit close effect naming `r` that passed
 the ownership check (requested by `r`'s owner, or `r` is unregistered), or a `ProcessResults`
-reporting the process `r` is registered to as complete. Nothing else ever closes a resource — in
+reporting the process `r` is registered to as complete (`Cleaned`: not a sleeping persistent
+process). Nothing else ever closes a resource — in
 particular not the termination of its owner (F10), and not time. -/
 theorem closed_only_by_owner_close_or_cleanup (s : Sys) (hn : KeysNodup s.env.owner) (ev : Event) (r : Rid)
     (h0 : r ∈ s.env.backend.openSet) (h1 : r ∉ (step s ev).env.backend.openSet) :
     (∃ p e w, ev = .request p e w ∧ e.kind.shape = .closeSync ∧ e.rid = r ∧
       violatesOwnership s.env.owner p e = false) ∨
-    (∃ a rs p, ev = .results a rs ∧ (p, true) ∈ rs ∧ ownGet s.env.owner r = some p) := by
+    (∃ a rs p, ev = .results a rs ∧ Cleaned s rs p ∧ ownGet s.env.owner r = some p) := by
   cases ev with
   | start => exact absurd h0 h1
   | terminate p => exact absurd h0 h1
@@ -496,7 +538,7 @@ theorem closed_only_by_owner_close_or_cleanup (s : Sys) (hn : KeysNodup s.env.ow
     simp only [step, handleProcessResults_backend, closeAll_openSet, List.mem_filter, h0, true_and,
       decide_eq_true_eq, Classical.not_not] at h1
     obtain ⟨p, hp, hg⟩ := (mem_cleanupList hn).1 h1
-    exact .inr ⟨a, rs, p, rfl, hp, hg⟩
+    exact .inr ⟨a, rs, p, rfl, (cleaned_iff s rs p).1 hp, hg⟩
 
 /-- F10 in general form: along ANY continuation that contains neither an accepted explicit close of
 `r` nor a report of `r`'s current owner (and no transfer of `r`, so the owner stays the same), an
@@ -527,7 +569,8 @@ theorem stays_open_while_left_alone (s : Sys) (hs : Inv s) (r : Rid) (o : Pid)
       · rw [hown] at hg; cases hg
         simp only [leavesAlone, Bool.not_eq_eq_eq_not, Bool.not_true, List.contains_eq_mem,
           decide_eq_false_iff_not] at hev
-        exact hev (mem_reportedOf.2 hp)
+        obtain ⟨rep, hm, hne, _⟩ := hp
+        exact hev (mem_reportedOf.2 ⟨rep, hm, hne⟩)
     have hown' : ownGet (step s ev).env.owner r = some o := by
       cases hq : ownGet (step s ev).env.owner r with
       | none =>
@@ -561,7 +604,7 @@ theorem stays_open_while_left_alone (s : Sys) (hs : Inv s) (r : Rid) (o : Pid)
               · rw [mem_ownKeys_regOf]; exact .inr hk
               · exact hk
           exact (ownGet_eq_none_iff _ _).1 hq this
-        | results a rs =>
+        | results a a' =>
           simp only [step, handleProcessResults_owner, ownGet_eraseAll] at hq
           split at hq
           · rename_i hm
@@ -569,7 +612,8 @@ theorem stays_open_while_left_alone (s : Sys) (hs : Inv s) (r : Rid) (o : Pid)
             rw [hown] at hg; cases hg
             simp only [leavesAlone, Bool.not_eq_eq_eq_not, Bool.not_true, List.contains_eq_mem,
               decide_eq_false_iff_not] at hev
-            exact hev (mem_reportedOf.2 hp)
+            obtain ⟨rep, hm', hne, _⟩ := (cleaned_iff s a' o).1 hp
+            exact hev (mem_reportedOf.2 ⟨rep, hm', hne⟩)
           · rw [hown] at hq; cases hq
       | some q =>
         by_cases hqo : q = o
@@ -613,7 +657,7 @@ theorem cinv_step {s : Sys} (hs : Inv s) (hc : CInv s) (ev : Event) (h2 : noStal
     simp only at hcalls
     refine ⟨?_, ?_⟩
     · rw [hcalls]
-      refine List.nodup_append.2 ⟨hc.nodup, cleanupList_nodup hs.keys rs, ?_⟩
+      refine List.nodup_append.2 ⟨hc.nodup, cleanupList_nodup hs.keys _, ?_⟩
       intro x hx y hy hxy
       subst hxy
       exact hc.not_reg x hx (cleanupList_sub_keys hs.keys hy)
@@ -699,8 +743,8 @@ passes it to `close_resource` a second time (a no-op in the backend: `effective_
 holds). Witness: 0 opens r, sends it to 1; 1 ends and is awaited (close r); 0 sends its stale copy
 to 2; 2 ends and is awaited (close r again). -/
 def staleRecloseWitness : List Event :=
-  [.start, .start, .start, .open 0, .send 0 1 (.res 1), .terminate 1, .awaitReport 0 1,
-   .send 0 2 (.res 1), .terminate 2, .awaitReport 0 2]
+  [.start, .spawn 0 [] .other, .spawn 0 [] .other, .open 0, .send 0 1 (.res 1), .terminate 1,
+   .awaitReport 0 1, .send 0 2 (.res 1), .terminate 2, .awaitReport 0 2]
 
 theorem close_called_twice_after_stale_transfer :
     wfFrom (init 3) staleRecloseWitness = true ∧
@@ -713,7 +757,8 @@ restricted to the owner" (recorded as observations in notes/C14.md) -/
 /-- Second trigger of F10: a handle delivered to a process whose completion has ALREADY been
 reported (and cleaned up) is registered to the dead process and stays open. -/
 def lateArrivalWitness : List Event :=
-  [.start, .start, .open 0, .terminate 1, .awaitReport 0 1, .send 0 1 (.tuple [.other, .res 1])]
+  [.start, .spawn 0 [] .other, .open 0, .terminate 1, .awaitReport 0 1,
+   .send 0 1 (.tuple [.other, .res 1])]
 
 theorem late_arrival_not_closed :
     wfFrom (init 2) lateArrivalWitness = true ∧
@@ -737,22 +782,34 @@ theorem stale_sender_moves_ownership :
       = (run (init 3) h).env.backend.executed ++ [(2, { kind := .fileRead, rid := 1 })] := by decide
 
 
-/-- F14 (found by the C14 harness). `no_close_while_owner_alive` needs its hypothesis: the
-environment closes whatever a `ProcessResults` reports as complete. The worker's
+/-- F14 / F38 (found by the C14 harness, repaired in 200f50e) — a witness about the OLD rule.
+Before the repair `handle_process_results` cleaned up for every `Some(result)`. The worker's
 `query_and_await` treats a *sleeping persistent* process (the REPL's process between two lines) as
-completed, so a process awaiting it makes the environment close the resources of a process that is
-alive and will be resumed. Witness: 0 opens r; a `ProcessResults` reports 0 although 0 has not
-terminated; r is closed; 0's next use of r reaches the backend and fails there (not found). -/
-def sleepingOwnerWitness : List Event := [.start, .start, .open 0, .awaitReport 1 0]
+completed, so a process awaiting it made the environment close the resources of a process that is
+alive and will be resumed. With the old rule (`handleProcessResultsOld`): 0 (persistent) opens r; a
+`ProcessResults` reports `Some(Ok)` for the sleeping 0; r is closed although 0 is not dead. With the
+repaired rule the very same event changes nothing and 0's next use of r reaches the backend. -/
+def sleepingOwnerPrefix : List Event := [.start, .spawn 0 [] .other, .open 0]
 
-theorem sleeping_owner_closed_witness :
-    handlesFrom (init 2) sleepingOwnerWitness = true ∧
-    livenessOk (run (init 2) [.start, .start, .open 0]) (.awaitReport 1 0) = false ∧
-    0 ∉ (run (init 2) sleepingOwnerWitness).terminated ∧
-    (run (init 2) sleepingOwnerWitness).env.backend.closeCalls = [1] ∧
-    (run (init 2) sleepingOwnerWitness).env.backend.openSet = [] ∧
-    (step (run (init 2) sleepingOwnerWitness) (.use 0 1)).env.out
-      = (run (init 2) sleepingOwnerWitness).env.out ++ [.effectCompletion 0 .err] := by decide
+theorem sleeping_owner_closed_by_old_rule :
+    let s := run (init 2) sleepingOwnerPrefix
+    -- the report is one a correct worker emits (the workers' side of the contract is respected)
+    livenessOk s (.awaitReport 1 0) = true ∧ 0 ∉ s.terminated ∧ ownGet s.env.owner 1 = some 0 ∧
+    -- OLD rule: closed while its owner is alive
+    (handleProcessResultsOld s.env [(0, .ok)]).backend.closeCalls = [1] ∧
+    (handleProcessResultsOld s.env [(0, .ok)]).backend.openSet = [] ∧
+    -- repaired rule: untouched, and the owner's next use is executed
+    (step s (.awaitReport 1 0)).env.backend.closeCalls = [] ∧
+    (step s (.awaitReport 1 0)).env.backend.openSet = [1] ∧
+    ownGet (step s (.awaitReport 1 0)).env.owner 1 = some 0 ∧
+    (step (step s (.awaitReport 1 0)) (.use 0 1)).env.backend.executed
+      = s.env.backend.executed ++ [(0, { kind := .fileRead, rid := 1 })] := by decide
+
+/-- …while a FAILED persistent process (it can never be resumed) is still cleaned up. -/
+example :
+    let s := run (init 2) (sleepingOwnerPrefix ++ [.terminate 0])
+    livenessOk s (.awaitFailure 1 0) = true ∧
+    (step s (.awaitFailure 1 0)).env.backend.closeCalls = [1] := by decide
 
 /-! ## the co-location rule of handle_spawn reads the ownership map -/
 
